@@ -1,6 +1,5 @@
 // C19 / unit c19_real: GDSII 8-byte reals, OASIS reals, byte swaps (all public functions).
-//   genc <dblbits> <E>     gdsii_real_from_double(x); E = exponent found in the implementation's own
-//                          output (model: gds_encode_with E, after checking E is an allowed exponent)
+//   genc <dblbits>         gdsii_real_from_double(x) (model: gds_encode, the exponent comes from the value)
 //   gdec <bits>            gdsii_real_to_double(pattern), result printed as an exact dyadic number
 //   swap <16|32|64> <hex>  big_endian_swapNN on one value
 //   orw  <dblbits>         oasis_write_real then oasis_read_real
@@ -94,16 +93,8 @@ static std::vector<std::string> split_ws(const std::string& s) {
 
 static bool known_kind(const std::string& k) { return k == "genc" || k == "gdec" || k == "swap" || k == "orw" || k == "ord"; }
 
-// the payload of a genc case: the double and the exponent the implementation chose for it
-static std::string genc_payload(double x) {
-    uint64_t bits = gdsii_real_from_double(x);
-    // first byte = sign (0x80) + (64 + E) in uint8 arithmetic: undo it, so that an exponent that overflowed the
-    // 7-bit field into the sign bit is still recovered (E up to 191)
-    unsigned u8 = (unsigned)(bits >> 56) & 0xFF;
-    unsigned s = x < 0 ? 128 : 0;
-    int64_t E = (int64_t)((u8 - s) & 0xFF) - 64;
-    return hex_dbl(x) + " " + hex_i64(E);
-}
+// the payload of a genc case: the double (the model computes the exponent itself)
+static std::string genc_payload(double x) { return hex_dbl(x); }
 
 static void run_case(Out& out, const std::string& kind, const std::string& payload) {
     if (!known_kind(kind)) return;  // corpus / replay entries of the other C19 units
@@ -326,7 +317,7 @@ int main(int argc, char** argv) {
     for (auto& c : load_corpus(argc > 4 ? argv[4] : NULL)) run_case(out, c.first, c.second);
     Rng g(seed);
     // deterministic: zero, 16^k and its neighbours over the whole range, powers of two and neighbours
-    run_case(out, "genc", hex_dbl(0.0) + " 0");
+    run_case(out, "genc", hex_dbl(0.0));
     run_case(out, "genc", genc_payload(1.0));
     run_case(out, "genc", genc_payload(-1.0));
     run_case(out, "genc", genc_payload(1e-9));
